@@ -67,15 +67,76 @@ pub struct Scn {
     /// name: two bulkheads are two bulkheads, whatever they are called
     #[serde(default)]
     pub nested: bool,
+    /// another, wider bulkhead with the same explicit name is built first and stays alive (never
+    /// used): a name is a label for events and metrics, not an identity
+    #[serde(default)]
+    pub decoy_namesake: bool,
+}
+
+thread_local! {
+    /// keeps the decoy bulkhead of a run alive until the run is over
+    static NAMESAKE: std::cell::RefCell<Option<Box<dyn std::any::Any>>> = const { std::cell::RefCell::new(None) };
 }
 
 const PROBE_LAT: u64 = 20;
+/// very long (but finite) waits: an hour, a year, three years (beyond the ~2.2 years that one
+/// tokio timer can span)
+const LONG_WAITS: [u64; 3] = [3_600_000, 31_536_000_000, 94_608_000_000];
+
+/// Holders that never finish and waiters with a very long max_wait: each waiter must still be
+/// rejected exactly max_wait after it arrived.
+fn gen_long_wait(rng: &mut Rng, max: u32) -> Scn {
+    let mut callers = vec![];
+    let mk = |start_ms: u64, out: Outcome, lat_ms: u64| Caller {
+        start_ms,
+        beh: Behaviour { lat_ms, out, yields: 0 },
+        cancel: CancelSpec::Never,
+        drop_unpolled: false,
+        depth: 0,
+        hold_unpolled_ms: 0,
+        svc: 0,
+        handle: 0,
+        hold_finished_ms: 0,
+    };
+    for _ in 0..max {
+        callers.push(mk(0, Outcome::Never, 0));
+    }
+    for _ in 0..rng.range(1, 3) {
+        callers.push(mk(*rng.pick(&[1u64, 5, 40]), Outcome::Ok, 5));
+    }
+    Scn {
+        nested: false,
+        decoy_namesake: false,
+        inner_capacity: None,
+        two_services: false,
+        shared_handle: false,
+        pre: 0,
+        wait_first: rng.chance(1, 2),
+        max,
+        max_wait: Some(*rng.pick(&LONG_WAITS)),
+        callers,
+        probes: 0,
+        probe_at: 1000,
+        listener_panic: false,
+        knobs: SchedKnobs::gen(rng, false, 60),
+    }
+}
 
 pub fn gen(rng: &mut Rng) -> Scn {
     // u32::MAX stands for usize::MAX ("no limit" written as a number of calls)
-    let max = if rng.chance(1, 12) { u32::MAX } else { rng.range(1, 4) as u32 };
+    let max = if rng.chance(1, 12) {
+        u32::MAX
+    } else if rng.chance(1, 14) {
+        // a bulkhead that admits nobody (maintenance switch): everybody waits, then times out
+        0
+    } else {
+        rng.range(1, 4) as u32
+    };
     // u64::MAX stands for Duration::MAX ("wait for ever", written as a finite setting)
     let max_wait = *rng.pick(&[None, None, Some(0u64), Some(0), Some(5), Some(10), Some(10), Some(25), Some(25), Some(u64::MAX)]);
+    if rng.chance(1, 40) {
+        return gen_long_wait(rng, max.clamp(1, 4));
+    }
     let n = rng.range(2, 12) as usize;
     let faulty = rng.chance(2, 3);
     let starts = [0u64, 0, 0, 1, 5, 5, 10, 10, 15, 20, 25, 30, 40];
@@ -110,6 +171,7 @@ pub fn gen(rng: &mut Rng) -> Scn {
     let pre = if max_wait.is_some() { *rng.pick(&[0u8, 0, 0, 1, 2, 3, 4]) } else { *rng.pick(&[0u8, 0, 0, 4]) };
     Scn {
         nested: rng.chance(1, 6),
+        decoy_namesake: rng.chance(1, 6),
         inner_capacity: if !shared_handle && rng.chance(1, 6) { Some(rng.range(1, 3) as u32) } else { None },
         two_services,
         shared_handle,
@@ -126,12 +188,11 @@ pub fn gen(rng: &mut Rng) -> Scn {
 }
 
 pub fn valid(s: &Scn) -> bool {
-    s.max >= 1
-        && (s.max <= 8 || s.max == u32::MAX)
+    (s.max <= 8 || s.max == u32::MAX)
         && s.callers.len() <= 16
         && !s.callers.is_empty()
         && s.callers.iter().all(|c| c.start_ms <= 500 && c.beh.lat_ms <= 200 && c.beh.yields <= 4)
-        && s.max_wait.map(|w| w <= 100 || w == u64::MAX).unwrap_or(true)
+        && s.max_wait.map(|w| w <= 100 || w == u64::MAX || (LONG_WAITS.contains(&w) && s.probes == 0 && s.knobs.jumps.is_empty())).unwrap_or(true)
         && s.callers.iter().all(|c| c.hold_unpolled_ms <= 50 && c.hold_finished_ms <= 100)
         && (s.probes == 0 || (s.probe_at >= 900 && s.probe_at <= 2000 && s.probes == if s.max == u32::MAX { 3 } else { s.max + 1 }))
         && s.knobs.jumps.iter().all(|j| j.0 <= 500 && j.1 <= 200)
@@ -158,7 +219,12 @@ pub fn run(s: &Scn, ctx: &mut RunCtx, prefix: &'static str) -> RunOutput {
     world::reset();
     let n = s.callers.len();
     let total_tasks = n + s.probes as usize;
-    let horizon = s.probe_at + 600;
+    // (a waiter with a very long max_wait is followed until it is rejected: idle virtual time
+    // costs nothing)
+    let horizon = match s.max_wait {
+        Some(w) if LONG_WAITS.contains(&w) => w + 5_000,
+        _ => s.probe_at + 600,
+    };
     let cfg = s.knobs.cfg(ctx, horizon, 0);
     let max = if s.max == u32::MAX { i64::MAX } else { s.max as i64 };
     let scn = s.clone();
@@ -217,6 +283,16 @@ pub fn run(s: &Scn, ctx: &mut RunCtx, prefix: &'static str) -> RunOutput {
                 .on_call_finished(|_| std::panic::panic_any(SimPanic))
                 .on_call_failed(|_| std::panic::panic_any(SimPanic));
         }
+        let namesake = if scn.decoy_namesake {
+            b = b.name("orders-db");
+            world::fault("same_named_bulkhead_alive");
+            build_guarded("C07.admit_at_once", "a second bulkhead with the same name", || {
+                BulkheadLayer::builder().name("orders-db").max_concurrent_calls(count(scn.max).saturating_add(2)).build().layer(SimInner::new(3))
+            })
+        } else {
+            None
+        };
+        NAMESAKE.with(|n| *n.borrow_mut() = namesake.map(|x| Box::new(x) as Box<dyn std::any::Any>));
         let layer = b.build();
         // the one shared handle per service (never cloned unless a caller clones it on arrival)
         type Svc = tower::util::BoxCloneService<Req, crate::inner::Resp, BulkheadServiceError<crate::inner::SimErr>>;
@@ -371,6 +447,7 @@ pub fn run(s: &Scn, ctx: &mut RunCtx, prefix: &'static str) -> RunOutput {
             idle: &mut idle,
         },
     );
+    NAMESAKE.with(|n| *n.borrow_mut() = None);
     // ---- history checks
     let log = world::with(|w| std::mem::take(&mut w.log));
     let calls = inner_calls(&log);
